@@ -1027,8 +1027,8 @@ def _tol(rep, m):
                 "reduced_dm": 6e-3, "wigner": 3e-3, "x_quad_values": 6e-3, "p_quad_values": 6e-3}.get(m, 5e-4)
     if m in ("x_quad_values", "p_quad_values"):
         return 1e-5
-    if m in ("number_expectation",):
-        return 1e-6
+    if m in ("number_expectation", "squeezing", "squeezing_truth"):
+        return 1e-6          # arcsin / arccosh are ill-conditioned near |sin phi| = 1 and r = 0
     return 1e-8
 
 
@@ -1184,6 +1184,13 @@ def _classify(rep, m, q, got, want, st, sg, mu, cov, n, cutoff):
             rc = cov[np.ix_(idx, idx)]
             if abs(np.linalg.det(rc) - (hb / 2) ** (2 * len(q["modes"]))) > 1e-6:
                 return "gauss.reduced_dm:global-pure-flag-on-mixed-reduction"
+        if rep == "gaussian" and m in ("squeezing", "squeezing_truth") and np.any(np.isnan(np.asarray(got, dtype=float))):
+            if m == "squeezing_truth":
+                off = abs(want[0, 0] - want[1, 1]) < 1e-9 * abs(want[0, 0])
+            else:
+                off = bool(np.any(np.abs(np.abs(np.asarray(want)[:, 1]) - 1) < 1e-9))
+            if off:
+                return "gauss.squeezing:phi-nan-at-half-pi"
         if rep == "gaussian" and m == "squeezing_truth":
             # hypothesis: r and sin(phi) right, sign of cos(phi) lost (arcsin)
             alt = np.array(got, dtype=float).copy()
